@@ -570,6 +570,10 @@ class _LoopInv:
     def havoc_heap(self, path):
         from .contracts import make_symbolic
         ctx = self.ctx
+        # ghost logs (LOG, EXT) may grow in the body: arbitrary at the loop head, constrained by the invariant only
+        for gname in list(path.ghost):
+            if isinstance(gname, str):
+                path.ghost[gname] = Val(V.VList(ctx.new("ghost_" + gname + "_loop", smt.SeqV)), ("list", None))
         for m in self.modifies:
             rootname, attr0 = m.split(".")
             root = path.env.get(rootname)
